@@ -101,7 +101,8 @@ class LinearMean(MeanFunction):
 
     def mean_and_gradients(self, theta: ndarray):
         grads = [ones(self.n_data)]
-        grads.extend([v for v in self.dx.T])
+        # (copies: the rows of self.dx.T are views of the array the mean itself is built from)
+        grads.extend([v.copy() for v in self.dx.T])
         return theta[0] + dot(self.dx, theta[1:]), grads
 
     def spatial_gradient(self, q: ndarray, theta: ndarray) -> ndarray:
@@ -152,8 +153,9 @@ class QuadraticMean(MeanFunction):
 
     def mean_and_gradients(self, theta: ndarray):
         grads = [ones(self.n_data)]
-        grads.extend([v for v in self.dx.T])
-        grads.extend([v for v in self.dx_sqr.T])
+        # (copies: the rows of self.dx.T are views of the array the mean itself is built from)
+        grads.extend([v.copy() for v in self.dx.T])
+        grads.extend([v.copy() for v in self.dx_sqr.T])
         return self.build_mean(theta), grads
 
     def spatial_gradient(self, q: ndarray, theta: ndarray) -> ndarray:
